@@ -53,6 +53,7 @@ partial def parsePat (j : Json) : Option Pat := do
   | "wild" => some .wild
   | "node" => some (.node (← asNat a[1]!) (← (← asArr a[2]!).toList.mapM parsePat))
   | "type" => some (.type (← asNat a[1]!))
+  | "ctx" => some .ctxInst
   | "types" => some (.types (← asNats a[1]!))
   | "typesF" => some (.typesF (← asNats a[1]!) (← asNat a[2]!) (← (← asArr a[3]!).toList.mapM parsePat))
   | "m" => some (.m (← parsePat a[1]!) (optNat a[2]!) (← parsePairs a[3]!))
